@@ -17,6 +17,7 @@ func init() {
 			r("T1", RuleT1),
 			r("L1", RuleL1),
 			r("SB1", RuleSB1),
+			r("NE1", RuleNE1),
 		},
 		Explanation: "Totality is split into the mechanisms the code relies on, each decided on every path/site: scanner pushdown reachability (no empty pops, no inverted lexeme spans, no index underflow, progress), nil/unset typestates of the parser and directive tree, guarded recursion and worklists, discharged explicit panics, recover barriers around the trusted library. A parameter indexed at a fixed end receives, at every call site, a value that is non-empty by construction; a transformed lexeme value is reported (IX1).",
 		Trusted:     trustedCommon,
